@@ -32,7 +32,7 @@ class FusionEngineEncoder:
         header.message_version = message.get_version()
         header.sequence_number = self.sequence_number
         header.source_identifier = source_identifier
-        self.sequence_number += 1
+        self.sequence_number = (self.sequence_number + 1) % 2**32
 
         message_data = message.pack()
 
